@@ -864,6 +864,11 @@ fn main() {
             }
         }
         Some("worker") => {
+            // no core files for the deliberate crash isolation
+            unsafe {
+                let lim = libc::rlimit { rlim_cur: 0, rlim_max: 0 };
+                libc::setrlimit(libc::RLIMIT_CORE, &lim);
+            }
             let seed: u64 = args[2].parse().unwrap();
             let rounds = if args[3] == "thorough" { 64 } else { 24 };
             let (from, n): (u64, u64) = (args[4].parse().unwrap(), args[5].parse().unwrap());
@@ -877,9 +882,23 @@ fn main() {
             roundtrip_model(&mut rep, seed.parse().unwrap(), if tier == "thorough" { 40 } else { 8 });
             let total = cases().len() as u64;
             let names: Vec<String> = cases().into_iter().map(|c| c.name).collect();
-            worker::run_batches(&[&seed, &tier], total, 150, Duration::from_secs(240), &mut rep, |rep, idx, ended| {
+            // crash-isolated batches; a tree on which many cases die is not explored to the end
+            let mut from = 0u64;
+            let mut crashes = 0u32;
+            while from < total {
+                let n = 150.min(total - from);
+                let (f, c) = (from.to_string(), n.to_string());
+                let (ended, out) = worker::run_worker_keep_stdout(&[&seed, &tier, &f, &c], Duration::from_secs(60));
+                if let Some(v) = Report::parse_stdout(&out) {
+                    rep.merge_json(&v);
+                }
+                if matches!(ended, Ended::Exit(0, _)) {
+                    from += n;
+                    continue;
+                }
+                let idx = out.lines().rev().find_map(|l| l.strip_prefix("START ")).and_then(|s| s.trim().parse::<u64>().ok()).unwrap_or(from);
                 let name = names.get(idx as usize).cloned().unwrap_or_default();
-                let how = match ended {
+                let how = match &ended {
                     Ended::Signal(s, _) => format!("signal {s}"),
                     Ended::Timeout => "timeout".into(),
                     Ended::Exit(c, _) => format!("exit {c}"),
@@ -890,7 +909,13 @@ fn main() {
                     &format!("crash:{}:{}", name.split(' ').next().unwrap_or(""), if zst { "zero-sized parameter" } else { "other" }),
                     json!({"case": name, "ended": how, "index": idx}),
                 );
-            });
+                crashes += 1;
+                if crashes >= 24 {
+                    rep.notes.push(format!("stopped after {crashes} dead workers at case {idx} of {total}"));
+                    break;
+                }
+                from = idx + 1;
+            }
             rep.notes.push(format!("{} cases over {} types; host layouts {}", total, type_descs().len(), host_layouts()));
             rep.emit();
         }
